@@ -206,6 +206,13 @@ def gen_cases(tier, seed):
         args = ["--driver", driver, "-w", "2", "--block-size", "64KB", "-r", "src", "dst"]
         yield {"family": "sites", "spec": spec, "pre": pre, "args": args, "driver": driver, "fs": "ext4",
                "max_sites": 60 if tier == "quick" else 100000, "sseed": r.randrange(1 << 30)}
+    # alias relations seen from a working directory whose absolute path is longer than PATH_MAX (every path has to stay relative
+    # there; whatever cannot be resolved must not be taken for "no relation")
+    for driver in ("parfile", "parblock"):
+        for name, args in (("source-inside-target-through-link", ["-r", "a/b/b", "lnk"]), ("source-inside-target-dotdot", ["-r", "a/b/b", "other/../a"]),
+                           ("file-onto-itself-through-link", ["a/b/b/q", "lnk/b/b/q"]), ("dir-into-itself-through-link", ["-r", "a", "lnk"]),
+                           ("file-into-own-dir-dotdot", ["a/b/b/q", "other/../a/b/b"]), ("T-dir-onto-itself-through-link", ["-r", "-T", "a", "lnk"])):
+            yield {"family": "deepcwd", "name": name, "args": ["--driver", driver] + args, "driver": driver, "fs": "ext4", "levels": r.choice([17, 18, 20])}
 
 
 def protected_diff(pre, post, protected, mapped):
@@ -360,8 +367,52 @@ def run_rich(case, res):
                              "sample": {"family": "rich", "args": case["args"], "sources": [{"mode": "%04o" % e.get("mode", 0), "owner": [e.get("uid", 0), e.get("gid", 0)]} for e in case["spec"][1:4]]}})
 
 
+DEEP_SCRIPT = r"""
+d=$(printf 'x%.0s' $(seq 1 250))
+i=0; while [ $i -lt $LEVELS ]; do mkdir "$d" || exit 97; cd "$d" || exit 97; i=$((i+1)); done
+mkdir -p a/b/b/b other || exit 97
+echo OUTER-CONTENT > a/b/b/q; echo INNER > a/b/b/b/q; echo KEEP > other/keep; echo G > a/g
+ln -s a lnk
+touch -d '2001-02-03 04:05:06' a/b/b/q a/b/b/b/q other/keep a/g
+state() { for f in a/b/b/q a/b/b/b/q other/keep a/g; do printf '%s:%s:%s ' "$f" "$(stat -c '%Y.%s.%i.%a' "$f" 2>/dev/null)" "$(sha1sum < "$f" 2>/dev/null | cut -c1-12)"; done; find a other | sort | tr '\n' ' '; }
+s0=$(state)
+"$XCP" "$@" > /dev/null 2>&1
+rc=$?
+s1=$(state)
+echo "RC=$rc"
+echo "BEFORE=$s0"
+echo "AFTER=$s1"
+"""
+
+
+def run_deepcwd(case, res):
+    import subprocess
+    with core.Sandbox(case["fs"], "c03") as sb:
+        env = dict(os.environ, XCP=core.xcp_argv([])[0], LEVELS=str(case["levels"]))
+        try:
+            p = subprocess.run(["bash", "-c", DEEP_SCRIPT, "deep"] + list(case["args"]), cwd=sb.root, env=env, capture_output=True, timeout=120)
+        except subprocess.TimeoutExpired:
+            res["inconc"].append("run-timeout")
+            return
+        out = dict(l.split("=", 1) for l in p.stdout.decode("latin-1").splitlines() if "=" in l)
+        if p.returncode == 97 or "RC" not in out:
+            res["inconc"].append("deep-directory-unavailable")
+            return
+        tag = "deep cwd (%d levels of 250 characters) %s" % (case["levels"], " ".join(case["args"]))
+        if out["BEFORE"] != out["AFTER"]:
+            b4, af = out["BEFORE"].split(" "), out["AFTER"].split(" ")
+            diff = [x for x in af if x not in b4][:3] + ["-" + x for x in b4 if x not in af][:3]
+            res["viol"].append({"sig": "deepcwd:%s:changed" % case["name"], "what": "sources changed (exit %s): %s; %s" % (out["RC"], diff, tag)})
+        res["counters"]["deep-cwd-runs"] = 1
+        res["counters"]["deep-cwd-exit-" + ("0" if out["RC"] == "0" else "nonzero")] = 1
+        res["evals"].append({"key": ["deepcwd", case["name"], case["driver"], case["levels"]], "sample": {"args": case["args"], "exit": out["RC"], "cwd_length": case["levels"] * 251}})
+
+
 def run_case(case):
     res = {"evals": [], "viol": [], "inconc": [], "counters": {}}
+    if case["family"] == "deepcwd":
+        run_deepcwd(case, res)
+        return res
     if case["family"] == "rich":
         run_rich(case, res)
         return res
